@@ -231,7 +231,7 @@ Qed.
 
 Lemma info_writes_basic : forall bm sn a i,
   assoc_last (LBasic a) (info_writes bm sn a i) =
-  if negb (bm a) && basic_changed sn i then Some (VBasic (Some (strip i))) else None.
+  if negb (bm a) && basic_changed sn i then Some (VBasic (Some (publish_info i))) else None.
 Proof.
   unfold info_writes. intros. rewrite assoc_last_app.
   destruct (negb (bm a) && basic_changed sn i); cbn [assoc_last loc_eqb]; [now rewrite N.eqb_refl|].
@@ -243,7 +243,7 @@ Lemma info_writes_code : forall bm sn a i,
   if code_changed sn i then option_map VCode (i_code i) else None.
 Proof.
   unfold info_writes. intros. rewrite assoc_last_app.
-  assert (E : assoc_last (LCode a) (if negb (bm a) && basic_changed sn i then [(LBasic a, VBasic (Some (strip i)))] else []) = None)
+  assert (E : assoc_last (LCode a) (if negb (bm a) && basic_changed sn i then [(LBasic a, VBasic (Some (publish_info i)))] else []) = None)
     by now destruct (negb (bm a) && basic_changed sn i).
   rewrite E. destruct (code_changed sn i); [|reflexivity].
   destruct (i_code i); cbn [assoc_last loc_eqb option_map]; [now rewrite N.eqb_refl|reflexivity].
@@ -295,7 +295,7 @@ Lemma account_writes_basic : forall bm sn a acct,
   | Unchanged => None
   | Deleted => if bm a then None else Some (VBasic None)
   | Created i _ | Updated i _ =>
-      if negb (bm a) && basic_changed (sn a) i then Some (VBasic (Some (strip i))) else None
+      if negb (bm a) && basic_changed (sn a) i then Some (VBasic (Some (publish_info i))) else None
   end.
 Proof.
   unfold writes_of_account. intros. destruct (classify acct); [reflexivity| | |].
